@@ -485,6 +485,12 @@ def set (cfg : Cfg) (fuel : Nat) (st : St) (t : MT) (key value : Bytes) : Option
     let t ← addOrphans st { t with root := some n } orphaned
     some (st, t, updated)
 
+/-- `if newRoot == nil && newRootHash != nil { tree.root = ndb.GetNode(newRootHash) } else { tree.root = newRoot }` -/
+def newRootAfterRemove (st : St) (res : RemoveRes) : Option (St × Option Addr) :=
+  match res.newSelf, res.newHash with
+  | none, some hh => (getNode st hh).map (fun r => (r.1, some r.2))
+  | p, _ => some (st, p)
+
 /-- `MutableTree.Remove` → `(value, removed)`. -/
 def remove (cfg : Cfg) (fuel : Nat) (st : St) (t : MT) (key : Bytes) :
     Option (St × MT × Option Bytes × Bool) :=
@@ -494,10 +500,7 @@ def remove (cfg : Cfg) (fuel : Nat) (st : St) (t : MT) (key : Bytes) :
     let (st, res, orphaned) ← recursiveRemove cfg (t.version + 1) fuel st a key []
     if orphaned.isEmpty then some (st, t, none, false)
     else
-      let (st, root) ←
-        match res.newSelf, res.newHash with
-        | none, some hh => (getNode st hh).map (fun r => (r.1, some r.2))
-        | p, _ => some (st, p)
+      let (st, root) ← newRootAfterRemove st res
       let t ← addOrphans st { t with root := root } orphaned
       some (st, t, res.value, true)
 
